@@ -251,6 +251,50 @@ def root_paths(st):
                 st.outcomes["ok"] += 1
 
 
+    root_grown(st)
+
+
+def root_grown(st):
+    """A path grown from the root by append() alone - the root written "" or
+    "/" - holds exactly the appended segments (pre-escaped for its notation,
+    as append() takes them), and popping them leads back to the root."""
+    for text, sep in (("", "."), ("/", "/")):
+        for first in TEXTS:
+            if sep == "." and first.startswith("/"):
+                continue
+            for second in ("zz", "a.b", "a/b"):
+                st.evaluations += 1
+                st.transitions += 4
+                case = {"root_text": text, "appended": [first, second]}
+                want = (("key", first), ("key", second))
+                pre = [paths.render((seg,), sep, "bs") for seg in want]
+                if sep == "/":
+                    pre = [t[1:] for t in pre]
+                path = YAMLPath(text)
+                try:
+                    path.append(pre[0])
+                    one = to_ast(path.escaped)
+                    path.append(pre[1])
+                    two = to_ast(path.escaped)
+                    shown = str(path)
+                    again = parse(shown)
+                    path.pop()
+                    back1 = to_ast(path.escaped)
+                    path.pop()
+                    back0 = (to_ast(path.escaped), path.is_root)
+                except YAMLPathException as ex:
+                    st.fail("root-grown|%r|raises" % text, case, repr(want),
+                            str(ex)[:100])
+                    continue
+                got = (one, two, again, back1, back0)
+                exp = (want[:1], want, want, want[:1], ((), True))
+                if got != exp:
+                    st.fail("root-grown|%r|segments" % text, case,
+                            repr(exp), "%r: %r" % (shown, got))
+                    continue
+                st.outcomes["ok"] += 1
+
+
 def roundtrip(st, segs):
     sig = paths.sig(segs)
     for sep in (".", "/"):
